@@ -95,6 +95,54 @@ def build() -> Check:
     ck.ob("R1.failure-flag-raised", c_cbf, not b_flag, b_flag[0][0] if b_flag else "")
     ck.ob("R1.consumer-stops", c_cbf, not b_exit, b_exit[0][0] if b_exit else "")
     ck.ob("R2.handshake-consumer-flag-before-drain", c_cbf, not b_order, b_order[0][0] if b_order else "")
+    # R1 scope of the failure handler: everything the consumer does with the service between collecting a batch and releasing its waiters
+    # (the checkpoint call itself and whatever fetches further pages of its response) sits inside the try whose handler raises the
+    # failure flag; an exception outside it kills the consumer thread silently and every blocked or later caller waits forever
+    sc6 = prog.cls("state", "ExecutionState")
+
+    def reaches_service(fn_node, seen=None):
+        seen = seen if seen is not None else set()
+        for c in ast.walk(fn_node):
+            if isinstance(c, ast.Call) and isinstance(c.func, ast.Attribute):
+                if "_service_client" in ast.unparse(c.func.value):
+                    return True
+                if isinstance(c.func.value, ast.Name) and c.func.value.id == "self" and c.func.attr in sc6.methods and c.func.attr not in seen:
+                    seen.add(c.func.attr)
+                    if reaches_service(sc6.methods[c.func.attr].node, seen):
+                        return True
+        return False
+
+    parents6 = {}
+    for n_ in ast.walk(cbf.node):
+        for c_ in ast.iter_child_nodes(n_):
+            parents6[id(c_)] = n_
+
+    def guarded(node):
+        cur, child = parents6.get(id(node)), node
+        while cur is not None:
+            if isinstance(cur, ast.Try) and any(child is x or any(child is y for y in ast.walk(x)) for x in cur.body):
+                for h in cur.handlers:
+                    catches_all = h.type is None or ast.unparse(h.type) in ("Exception", "BaseException")
+                    raises_flag = any(isinstance(x, ast.Call) and isinstance(x.func, ast.Attribute) and x.func.attr == "set"
+                                      and "_checkpointing_failed" in ast.unparse(x.func.value) for x in ast.walk(h))
+                    if catches_all and raises_flag:
+                        return True
+            child, cur = cur, parents6.get(id(cur))
+        return False
+
+    svc_calls = []
+    for c in ast.walk(cbf.node):
+        if isinstance(c, ast.Call) and isinstance(c.func, ast.Attribute):
+            direct = "_service_client" in ast.unparse(c.func.value)
+            via = isinstance(c.func.value, ast.Name) and c.func.value.id == "self" and c.func.attr in sc6.methods and c.func.attr != cbf.name \
+                and reaches_service(sc6.methods[c.func.attr].node, {c.func.attr})
+            if direct or via:
+                svc_calls.append(c)
+    ck.floor("consumer_service_calls", len(svc_calls), 2)
+    for c in svc_calls:
+        ck.ob("R1.handler-covers-every-service-call", c_cbf, guarded(c),
+              f"`{ast.unparse(c.func)}(...)` can raise (it talks to the service) but is outside the try whose handler raises the failure flag: the consumer "
+              "thread would die silently, no waiter is woken and no later caller is refused", where=f"line {c.lineno}", cell=ast.unparse(c.func))
 
     # ---- R2b producer ---------------------------------------------------------------------------
     cc = create_checkpoint_traces(pm)
